@@ -382,6 +382,55 @@ def listening_of_pid(pid):
     return {"tcp": sorted(tcp), "udp": sorted(udp)}
 
 
+_TCP_STATES = {"01": "ESTABLISHED", "02": "SYN_SENT", "03": "SYN_RECV", "04": "FIN_WAIT1", "05": "FIN_WAIT2", "06": "TIME_WAIT",
+               "07": "CLOSE", "08": "CLOSE_WAIT", "09": "LAST_ACK", "0A": "LISTEN", "0B": "CLOSING"}
+
+
+def _hex_addr(a):
+    host, port = a.rsplit(":", 1)
+    port = int(port, 16)
+    if len(host) == 8:
+        return "%s:%d" % (socket.inet_ntoa(struct.pack("<I", int(host, 16))), port)
+    try:
+        raw = b"".join(struct.pack("<I", int(host[i:i + 8], 16)) for i in range(0, 32, 8))
+        return "[%s]:%d" % (socket.inet_ntop(socket.AF_INET6, raw), port)
+    except Exception:
+        return "%s:%d" % (host, port)
+
+
+def describe_fds(pid):
+    """{fd: text} for every open descriptor of a process (sockets resolved through /proc/<pid>/net)."""
+    inode_desc = {}
+    for name in ("tcp", "tcp6", "udp", "udp6"):
+        try:
+            with open("/proc/%d/net/%s" % (pid, name)) as f:
+                next(f, None)
+                for line in f:
+                    q = line.split()
+                    if len(q) < 10:
+                        continue
+                    if name.startswith("tcp"):
+                        inode_desc[q[9]] = "%s %s->%s %s" % (name, _hex_addr(q[1]), _hex_addr(q[2]), _TCP_STATES.get(q[3], q[3]))
+                    else:
+                        inode_desc[q[9]] = "%s %s->%s" % (name, _hex_addr(q[1]), _hex_addr(q[2]))
+        except OSError:
+            pass
+    out = {}
+    try:
+        names = os.listdir("/proc/%d/fd" % pid)
+    except OSError:
+        return out
+    for fd in names:
+        try:
+            l = os.readlink("/proc/%d/fd/%s" % (pid, fd))
+        except OSError:
+            continue
+        if l.startswith("socket:["):
+            l = "%s %s" % (l, inode_desc.get(l[8:-1], "(not in /proc/net tcp/udp tables)"))
+        out[int(fd)] = l
+    return out
+
+
 # --------------------------------------------------------------------------------------------
 # Deployment
 # --------------------------------------------------------------------------------------------
@@ -619,7 +668,18 @@ class Deployment:
         with _live_lock:
             if _shutting_down[0] or self._stopped:
                 raise T2Error("driver is shutting down; not starting " + which)
-            p = subprocess.Popen(argv, stdin=subprocess.DEVNULL, stdout=log, stderr=subprocess.STDOUT, cwd=self.dir, env=env)
+            nofile = self.spec.get("%s_nofile" % which)
+            if nofile:
+                # prlimit execs the command, so the pid (and the process name) is the binary's own
+                if shutil.which("prlimit"):
+                    argv = ["prlimit", "--nofile=%d:%d" % (nofile, nofile), "--"] + list(argv)
+                    p = subprocess.Popen(argv, stdin=subprocess.DEVNULL, stdout=log, stderr=subprocess.STDOUT, cwd=self.dir, env=env)
+                else:
+                    import resource
+                    p = subprocess.Popen(argv, stdin=subprocess.DEVNULL, stdout=log, stderr=subprocess.STDOUT, cwd=self.dir, env=env,
+                                         preexec_fn=lambda: resource.setrlimit(resource.RLIMIT_NOFILE, (nofile, nofile)))
+            else:
+                p = subprocess.Popen(argv, stdin=subprocess.DEVNULL, stdout=log, stderr=subprocess.STDOUT, cwd=self.dir, env=env)
             if which == "client":
                 self.client = p
             else:
@@ -744,6 +804,14 @@ class Deployment:
         if p is None or p.poll() is not None:
             return {"tcp": [], "udp": []}
         return listening_of_pid(p.pid)
+
+    def fds(self, which):
+        """{fd_number: description} of the process: readlink of /proc/<pid>/fd/*, sockets resolved to
+        'tcp 127.0.0.1:1->127.0.0.1:2 ESTABLISHED' / 'udp 0.0.0.0:5' where /proc/net knows them."""
+        p = self._proc(which)
+        if p is None or p.poll() is not None:
+            return {}
+        return describe_fds(p.pid)
 
     def describe(self):
         return {"client_port": self.client_port, "server_port": self.server_port,
@@ -959,15 +1027,17 @@ class TcpTarget:
           ("reset_after", n)              RST once n bytes arrived
           callable(conn, chunk_or_None)   custom: called with None on accept, then per chunk"""
 
-    def __init__(self, mode="manual", port=0, backlog=128):
+    def __init__(self, mode="manual", port=0, backlog=128, host=LOOPBACK):
         self.mode = mode
-        self.lsock = socket.socket(socket.AF_INET, socket.SOCK_STREAM)
+        self.host = host
+        fam = socket.AF_INET6 if ":" in host else socket.AF_INET
+        self.lsock = socket.socket(fam, socket.SOCK_STREAM)
         self.lsock.setsockopt(socket.SOL_SOCKET, socket.SO_REUSEADDR, 1)
-        self.lsock.bind((LOOPBACK, port))
+        self.lsock.bind((host, port))
         self.lsock.listen(backlog)
         self.lsock.setblocking(False)
         self.port = self.lsock.getsockname()[1]
-        self.addr = (LOOPBACK, self.port)
+        self.addr = (host, self.port)
         self.conns = []
         self._cv = threading.Condition()
         self._stop = False
@@ -1777,3 +1847,294 @@ def probe_udp(dep, deadline=2.0, payload=b"t2-udp-probe", repeat=2):
             "labels_ok": all(l is not None and tuple(l) == tgt.addr for l, _p, _t in rec),
             "relayed": sorted(got) == sorted(want) and sorted(p for _l, p, _t in rec) == sorted(want)
             and all(l is not None and tuple(l) == tgt.addr for l, _p, _t in rec)}
+
+
+# --------------------------------------------------------------------------------------------
+# forwarders (a driver-controlled hop between the client and the server)
+# --------------------------------------------------------------------------------------------
+
+class TcpForwarder:
+    """Transparent TCP hop: listens on .port; every accepted connection is connected to the upstream
+    (set_upstream((host, port)), may be set after creation) and relayed both ways.  Records the bytes
+    of each direction per connection.  cut() closes BOTH sockets of every live connection at once
+    (orderly close by default, reset=True for RST).
+
+    Put it between client and server with spec["extra"] = {"client_server": {"port": fwd.port}} and
+    fwd.set_upstream((LOOPBACK, dep.server_port)) once the deployment is up."""
+
+    def __init__(self, upstream=None, port=0):
+        self.upstream = upstream
+        self.lsock = socket.socket(socket.AF_INET, socket.SOCK_STREAM)
+        self.lsock.setsockopt(socket.SOL_SOCKET, socket.SO_REUSEADDR, 1)
+        self.lsock.bind((LOOPBACK, port))
+        self.lsock.listen(256)
+        self.lsock.settimeout(0.2)
+        self.port = self.lsock.getsockname()[1]
+        self.addr = (LOOPBACK, self.port)
+        self.links = []          # dicts: {"down": sock, "up": sock, "c2s": bytearray, "s2c": bytearray, "open": bool}
+        self.errors = []
+        self._lock = threading.Lock()
+        self._stop = False
+        self._refuse = False
+        self._thr = threading.Thread(target=self._acceptor, name="t2-tcpfwd-%d" % self.port, daemon=True)
+        self._thr.start()
+
+    def set_upstream(self, addr):
+        self.upstream = tuple(addr)
+
+    def _acceptor(self):
+        while not self._stop:
+            try:
+                d, _peer = self.lsock.accept()
+            except socket.timeout:
+                continue
+            except OSError:
+                break
+            if self._refuse or self.upstream is None:
+                d.close()
+                continue
+            try:
+                u = socket.create_connection(self.upstream, timeout=3.0)
+            except OSError as e:
+                self.errors.append("upstream connect: %r" % (e,))
+                d.close()
+                continue
+            for x in (d, u):
+                x.settimeout(None)
+                x.setsockopt(socket.IPPROTO_TCP, socket.TCP_NODELAY, 1)
+            link = {"down": d, "up": u, "c2s": bytearray(), "s2c": bytearray(), "open": True, "lock": threading.Lock()}
+            with self._lock:
+                self.links.append(link)
+            threading.Thread(target=self._pump, args=(link, d, u, "c2s"), daemon=True).start()
+            threading.Thread(target=self._pump, args=(link, u, d, "s2c"), daemon=True).start()
+        try:
+            self.lsock.close()
+        except OSError:
+            pass
+
+    def _pump(self, link, src, dst, key):
+        try:
+            while True:
+                b = src.recv(65536)
+                if not b:
+                    break
+                link[key] += b
+                dst.sendall(b)
+            try:
+                dst.shutdown(socket.SHUT_WR)   # propagate the half close
+            except OSError:
+                pass
+            with link["lock"]:
+                link["done"] = link.get("done", 0) + 1
+                both = link["done"] >= 2
+            if both:
+                self._close_link(link, False)
+        except OSError:
+            self._close_link(link, False)
+
+    def _close_link(self, link, reset):
+        with link["lock"]:
+            if not link["open"]:
+                return
+            link["open"] = False
+        for x in (link["down"], link["up"]):
+            try:
+                if reset:
+                    x.setsockopt(socket.SOL_SOCKET, socket.SO_LINGER, struct.pack("ii", 1, 0))
+                else:
+                    x.shutdown(socket.SHUT_RDWR)  # wakes the pump threads blocked in recv
+            except OSError:
+                pass
+            try:
+                x.close()
+            except OSError:
+                pass
+
+    def relayed(self):
+        """(bytes client->server, bytes server->client) summed over all connections"""
+        with self._lock:
+            return sum(len(l["c2s"]) for l in self.links), sum(len(l["s2c"]) for l in self.links)
+
+    def live(self):
+        with self._lock:
+            return sum(1 for l in self.links if l["open"])
+
+    def cut(self, reset=False, refuse_new=True):
+        """Close both sockets of every live connection; returns how many links were cut."""
+        self._refuse = refuse_new
+        with self._lock:
+            links = [l for l in self.links if l["open"]]
+        for l in links:
+            self._close_link(l, reset)
+        return len(links)
+
+    def close(self):
+        self._stop = True
+        self.cut()
+        self._thr.join(1.0)
+
+    def __enter__(self):
+        return self
+
+    def __exit__(self, *exc):
+        self.close()
+        return False
+
+
+class UdpForwarder:
+    """Transparent UDP hop: datagrams arriving on .port from a client address are re-sent to the
+    upstream from a per-client socket, replies go back to that client.  .captured holds every
+    client->server datagram as (payload, client_addr, time); .replies every server->client one."""
+
+    def __init__(self, upstream=None, port=0):
+        self.upstream = upstream
+        self.sock = socket.socket(socket.AF_INET, socket.SOCK_DGRAM)
+        self.sock.bind((LOOPBACK, port))
+        self.sock.settimeout(0.2)
+        self.port = self.sock.getsockname()[1]
+        self.addr = (LOOPBACK, self.port)
+        self.captured = []
+        self.replies = []
+        self._ups = {}           # client addr -> upstream-facing socket
+        self._stop = False
+        self._lock = threading.Lock()
+        self._thr = threading.Thread(target=self._run, name="t2-udpfwd-%d" % self.port, daemon=True)
+        self._thr.start()
+
+    def set_upstream(self, addr):
+        self.upstream = tuple(addr)
+
+    def _run(self):
+        while not self._stop:
+            try:
+                b, src = self.sock.recvfrom(70000)
+            except socket.timeout:
+                continue
+            except OSError:
+                if self._stop:
+                    break
+                continue
+            with self._lock:
+                self.captured.append((b, src, time.monotonic()))
+                u = self._ups.get(src)
+                if u is None and self.upstream is not None:
+                    u = socket.socket(socket.AF_INET, socket.SOCK_DGRAM)
+                    u.bind((LOOPBACK, 0))
+                    u.settimeout(0.2)
+                    self._ups[src] = u
+                    threading.Thread(target=self._back, args=(u, src), daemon=True).start()
+            if u is not None:
+                try:
+                    u.sendto(b, self.upstream)
+                except OSError:
+                    pass
+        try:
+            self.sock.close()
+        except OSError:
+            pass
+
+    def _back(self, u, client):
+        while not self._stop:
+            try:
+                b, _src = u.recvfrom(70000)
+            except socket.timeout:
+                continue
+            except OSError:
+                break
+            self.replies.append((b, client, time.monotonic()))
+            try:
+                self.sock.sendto(b, client)
+            except OSError:
+                pass
+        try:
+            u.close()
+        except OSError:
+            pass
+
+    def close(self):
+        self._stop = True
+        self._thr.join(1.0)
+
+    def __enter__(self):
+        return self
+
+    def __exit__(self, *exc):
+        self.close()
+        return False
+
+
+def tls_client_hello(server_name="localhost"):
+    """The bytes of a genuine TLS ClientHello record (made with the ssl module, nothing is sent)."""
+    import ssl
+    ctx = ssl.SSLContext(ssl.PROTOCOL_TLS_CLIENT)
+    ctx.check_hostname = False
+    ctx.verify_mode = ssl.CERT_NONE
+    inc, out = ssl.MemoryBIO(), ssl.MemoryBIO()
+    o = ctx.wrap_bio(inc, out, server_hostname=server_name)
+    try:
+        o.do_handshake()
+    except ssl.SSLWantReadError:
+        pass
+    return out.read()
+
+
+# --------------------------------------------------------------------------------------------
+# helpers shared by the suites
+# --------------------------------------------------------------------------------------------
+
+SETTINGS = {"workers": 8, "deadline": DEFAULT_DEADLINE}   # set by run_t2.main() from the command line
+
+
+def wanted(name, only):
+    return (not only) or (only in name)
+
+
+def tails(dep, n=500):
+    l = dep.logs()
+    return {"client_log_tail": l["client"][-n:], "server_log_tail": l["server"][-n:]}
+
+
+def process_state(dep):
+    return {"alive": {"client": dep.alive()[0], "server": dep.alive()[1]},
+            "exit_codes": {"client": dep.exit_codes()[0], "server": dep.exit_codes()[1]},
+            "panicked": dep.panicked()}
+
+
+def deploy_failed(names, spec, e):
+    """Results (ok=False) for scenarios whose deployment did not come up."""
+    why = getattr(e, "ready_detail", None) or str(e)
+    observed = {"deployment_error": why, "log_tails": getattr(e, "log_tails", None) or str(e)[-1500:]}
+    return [result(n, spec, {"deployment": "starts and listens as documented"}, observed, False,
+                   "deployment did not come up: %s" % (why[:400],)) for n in names]
+
+
+def canary(dep, udp=False, deadline=3.0, kind="socks5_ipv4"):
+    """A fresh end-to-end check through the deployment: one SOCKS5 TCP flow (request, answer, target
+    closes, app sees EOF) and, if udp, one pair of echoed datagrams from a fresh application socket.
+    -> {"tcp": bool, "udp": bool|None, "tcp_detail": str, "udp_detail": dict|None, "ok": bool}"""
+    t = probe_tcp(dep, kind=kind, deadline=deadline)
+    out = {"tcp": bool(t["relayed"]), "tcp_detail": t["relay_detail"], "udp": None, "udp_detail": None}
+    if udp:
+        u = probe_udp(dep, deadline=deadline)
+        out["udp"] = bool(u["relayed"])
+        out["udp_detail"] = u
+    out["ok"] = out["tcp"] and (out["udp"] is not False)
+    return out
+
+
+def health(dep, udp=False, deadline=3.0):
+    """alive + no panic + canary -> (ok, problems list, observation dict)"""
+    st = process_state(dep)
+    c = canary(dep, udp=udp, deadline=deadline)
+    problems = []
+    for w in ("client", "server"):
+        if not st["alive"][w]:
+            problems.append("%s process died (exit code %s)" % (w, st["exit_codes"][w]))
+        if st["panicked"][w]:
+            problems.append("%s logged a panic" % w)
+    if not c["tcp"]:
+        problems.append("TCP canary failed afterwards: %s" % c["tcp_detail"])
+    if udp and not c["udp"]:
+        problems.append("UDP canary failed afterwards (target got %s, replies %s)" % (c["udp_detail"]["target_got"], c["udp_detail"]["replies"]))
+    obs = dict(st, canary=c)
+    return (not problems), problems, obs
